@@ -235,6 +235,7 @@ func Run(cfg Config) error {
 	cdc := enc.Codec
 
 	all, problems := Types(enc.InterfaceRegistry, cfg.Log)
+	SetAnyPackable(AnyTypes(enc.InterfaceRegistry))
 	var types []TypeEntry
 	for _, e := range all {
 		if (cfg.Filter == "" || strings.Contains(e.Name, cfg.Filter)) && (!cfg.Core || e.Core) {
